@@ -143,7 +143,7 @@ def shard(ctx):
 
     # the Random object is seeded by a Hypothesis draw, so the run is a function of VERIF_SEED
     total = int(os.environ.get("VF_C10_TOTAL", "0"))  # smaller runs while developing / for mutation trials on a busy machine
-    n = max(1, total // ctx.n) if total else ctx.per_shard(20000, 400000)
+    n = max(1, total // ctx.n) if total else ctx.per_shard(16000, 400000)
     ctx.hyp(st.randoms(use_true_random=True), one, n, "trees")
     # generator health: a featured head that is never accepted or never rejected means a mis-tuned template
     if not ctx.timed_out:
